@@ -824,7 +824,8 @@ def subunit_wire(rng, T, writes=True):
         for f2 in ([f] if f else []) + rng.sample(readable, min(len(readable), 2)):
             ops.append(["read", f2["attr"]])
         if writes and writable and rng.random() < 0.7:
-            f3 = rng.choice(writable)
+            # (often the function the receiver has just reported: "leaves what the attribute reads unchanged" needs something to read)
+            f3 = f if (f is not None and f["put"] and rng.random() < 0.5) else rng.choice(writable)
             v, _validity = rng.choice(c05.candidate_values(rng, T, f3, False))
             if f3["get"]:
                 ops.append(["read", f3["attr"]])
@@ -832,6 +833,10 @@ def subunit_wire(rng, T, writes=True):
                 ops.append(["assign", f3["attr"], _tok(v)])
             if f3["get"]:
                 ops.append(["read", f3["attr"]])
+                if rng.random() < 0.5:
+                    # ... and once more after the receiver's reply (an echo, an error line, or nothing) has had time to arrive
+                    ops.append(["until", round(t + 0.3 + 0.45, 3)])
+                    ops.append(["read", f3["attr"]])
         if writes and c["actions"] and rng.random() < 0.5:
             a = rng.choice(c["actions"])
             args = rng.choice(c05.action_argsets(rng, a["kind"]))
@@ -845,6 +850,10 @@ def subunit_wire(rng, T, writes=True):
     dev = {"type": "scripted", "latency": 0.02, "table": table, "unsolicited": unsol, "echo_put": False}
     if rng.random() < 0.3:
         dev["chunk"] = rng.randrange(1, 10 ** 6)
+    if writes and rng.random() < 0.35:
+        # a zone in standby: PUTs are refused with an error line (which changes nothing the attributes read)
+        dev["echo_put"] = True
+        dev["restrict_puts"] = {"p": 1.0, "seed": rng.randrange(10 ** 6)}
     init = rng.random() < 0.5
     if init:
         # initialisation occupies the first seconds: shift the script behind it
